@@ -26,7 +26,7 @@ RULE = (
 )
 ASSUMPTIONS = [
     "bounded to the listed families",
-    "a pair that is both a job-chain pair and a same-machine pair may carry either edge type (single DiGraph edge)",
+    "a consecutive same-job pair that also shares a machine: forward edge conjunctive (precedence), reverse edge disjunctive (single DiGraph edge per direction)",
 ]
 BOUNDS = {
     "quick": "static: K3, K4[seed%4::4], M3 small, probes x 4 builders; solved graph: K3+ and K4+[seed%8::8] all complete histories x all delay vectors, positive probes (histories only)",
